@@ -1,6 +1,7 @@
 (* C04 — Day-of-year and day-of-month ordinals are gap-free counts. *)
 From JV Require Import Sem Gen Spec SpecX.
 From JV.Proofs Require Import SpecFacts Cal Core AtJdn Boundary SpecSets Year SuccPred.
+Require JV.Proofs.Glue_C04_core.
 Open Scope Z_scope.
 
 (* OrdinalIs c j o: there is a j0 <= j such that the earlier dates of the same year are exactly the days
@@ -8,32 +9,20 @@ Open Scope Z_scope.
    same year (Spec.v).  DayOrdinalIs: the same within the month. *)
 Theorem C04_ordinals_count : forall c j, ValidCal c -> in_i32 j ->
   exists d, Calendar_at_jdn (cal_of c) j = Ret d /\ OrdinalIs c j (Date_f_ordinal d) /\ DayOrdinalIs c j (Date_f_day_ordinal d).
-Proof.
-  intros c j V Hj. exists (date_of c j). split; [apply at_jdn_ok; assumption|].
-  destruct (date_of_fields c j) as (_ & _ & Fo & _ & _ & _ & Fd). rewrite Fo, Fd.
-  split; [apply ordinal_is; exact V|apply day_ordinal_is; exact V].
-Qed.
+Proof. exact JV.Proofs.Glue_C04_core.C04_ordinals_count_lemma. Qed.
 Print Assumptions C04_ordinals_count.
 
 Theorem C04_zero_based : forall c j, ValidCal c -> in_i32 j ->
   exists d, Calendar_at_jdn (cal_of c) j = Ret d /\
     Date_ordinal0 d = Ret (Date_f_ordinal d - 1) /\ Date_day_ordinal0 d = Ret (Date_f_day_ordinal d - 1) /\
     Date_ordinal d = Ret (Date_f_ordinal d) /\ Date_day_ordinal d = Ret (Date_f_day_ordinal d).
-Proof.
-  intros c j V Hj. exists (date_of c j). split; [apply at_jdn_ok; assumption|].
-  destruct (date_of_fields c j) as (_ & _ & Fo & _ & _ & _ & Fd). rewrite Fo, Fd.
-  destruct (ordinal0_ok c j V Hj) as [A B]. unfold Date_ordinal, Date_day_ordinal. rewrite Fo, Fd. repeat split; assumption || reflexivity.
-Qed.
+Proof. exact JV.Proofs.Glue_C04_core.C04_zero_based_lemma. Qed.
 Print Assumptions C04_zero_based.
 
 (* the last date of a year has the year's length as its ordinal *)
 Theorem C04_last_day_is_length : forall c j, ValidCal c -> in_i32 j -> l_year (lbl c (j + 1)) <> l_year (lbl c j) ->
   exists d, Calendar_at_jdn (cal_of c) j = Ret d /\ Calendar_year_length (cal_of c) (Date_f_year d) = Ret (Date_f_ordinal d).
-Proof.
-  intros c j V Hj NE. exists (date_of c j). split; [apply at_jdn_ok; assumption|].
-  destruct (date_of_fields c j) as (_ & Fy & Fo & _). rewrite Fy, Fo.
-  rewrite year_length_ok by (try assumption; apply year_i32; exact Hj). f_equal. symmetry. apply last_day_ordinal; assumption.
-Qed.
+Proof. exact JV.Proofs.Glue_C04_core.C04_last_day_is_length_lemma. Qed.
 Print Assumptions C04_last_day_is_length.
 
 (* non-vacuity: 1582-10-15 is the 278th date of its year and the 5th of its month in the 1582 calendar *)
